@@ -240,6 +240,20 @@ def _one_model(st, g, model, lab, n, card, joint, only):
             st.violation(site0 + "." + op, "not-calibrated", case(key), None, bad)
         else:
             st.outcome((op, len(cb)))
+        # a posterior query on the SAME engine right after (max-)calibration must still be the sum-marginal
+        for qv in range(min(n, 2)):
+            st.evals += 1
+            try:
+                res = bp.query([lab.name(qv)], show_progress=False)
+                post, _ = posterior(joint, [qv], {})
+                st.compared += 1
+                d = cmp_named(named_table(res), ref_named(post, lab))
+                if d:
+                    st.violation(site0 + ".query-after-" + op, "wrong-posterior", case(key), None, d)
+            except Exception as ex:
+                st.violation(site0 + ".query-after-" + op, "exception", case(key), repr(ex)[:200])
+            bp = BeliefPropagation(model)
+            getattr(bp, op)()
     # ---- queries
     try:
         cliques = [set(lab.id[v] for v in c) for c in BeliefPropagation(model).get_cliques()]
